@@ -19,6 +19,7 @@ const (
 	fcWriteCheck
 	fcScalar // pointer to string/uint/int/float/bool
 	fcScaled // *ScaledNumberType
+	fcSlice  // list-valued element: slice of scalars or of structs with scalar members
 )
 
 type itemField struct {
@@ -71,6 +72,9 @@ func shapeOf(t reflect.Type) *itemShape {
 				f.Class = fcWriteCheck
 			}
 		}
+		if sf.Type.Kind() == reflect.Slice && sliceElemGenerable(sf.Type.Elem()) {
+			f.Class = fcSlice
+		}
 		s.Fields = append(s.Fields, f)
 		if f.Class == fcKey {
 			s.Keys = append(s.Keys, f)
@@ -95,6 +99,79 @@ func jsonName(sf reflect.StructField) string {
 		return sf.Name
 	}
 	return tag
+}
+
+//go:norace
+func scalarKind(k reflect.Kind) bool {
+	switch k {
+	case reflect.String, reflect.Uint, reflect.Int, reflect.Bool, reflect.Float64, reflect.Uint64, reflect.Int64, reflect.Uint32, reflect.Int32:
+		return true
+	}
+	return false
+}
+
+// sliceElemGenerable: scalars, or structs that have at least one pointer-to-scalar member.
+//
+//go:norace
+func sliceElemGenerable(t reflect.Type) bool {
+	if scalarKind(t.Kind()) {
+		return true
+	}
+	if t.Kind() != reflect.Struct {
+		return false
+	}
+	for i := 0; i < t.NumField(); i++ {
+		ft := t.Field(i).Type
+		if ft.Kind() == reflect.Ptr && scalarKind(ft.Elem().Kind()) {
+			return true
+		}
+	}
+	return false
+}
+
+// genSlice fills a list-valued element with one or two fresh members.
+//
+//go:norace
+func (w *World) genSlice(fv reflect.Value) {
+	n := 1 + w.T.Choose(2, "list-element-members")
+	sl := reflect.MakeSlice(fv.Type(), 0, n)
+	et := fv.Type().Elem()
+	for i := 0; i < n; i++ {
+		e := reflect.New(et).Elem()
+		if scalarKind(et.Kind()) {
+			w.setScalarValue(e)
+		} else {
+			set := false
+			for j := 0; j < et.NumField(); j++ {
+				ft := et.Field(j).Type
+				if ft.Kind() == reflect.Ptr && scalarKind(ft.Elem().Kind()) && (!set || w.T.Bool(1, 2, "member-field")) {
+					p := reflect.New(ft.Elem())
+					w.setScalarValue(p.Elem())
+					e.Field(j).Set(p)
+					set = true
+				}
+			}
+		}
+		sl = reflect.Append(sl, e)
+	}
+	fv.Set(sl)
+}
+
+//go:norace
+func (w *World) setScalarValue(v reflect.Value) {
+	u := w.Uniq()
+	switch v.Kind() {
+	case reflect.String:
+		v.SetString(fmt.Sprintf("v%d", u))
+	case reflect.Uint, reflect.Uint64, reflect.Uint32:
+		v.SetUint(uint64(1000 + u))
+	case reflect.Int, reflect.Int64, reflect.Int32:
+		v.SetInt(int64(1000 + u))
+	case reflect.Float64:
+		v.SetFloat(float64(1000 + u))
+	case reflect.Bool:
+		v.SetBool(u%2 == 0)
+	}
 }
 
 // hasStructKey reports whether the item type has a key field we cannot generate.
@@ -180,6 +257,11 @@ func (w *World) GenItem(t reflect.Type, ids []uint, fillNum, fillDen int, wc *bo
 		case fcScaled:
 			if w.T.Bool(fillNum, fillDen, "field:"+f.Name) {
 				fv.Set(reflect.ValueOf(model.NewScaledNumberType(float64(w.Uniq()))))
+			}
+		case fcSlice:
+			if w.T.Bool(fillNum, 2*fillDen, "field:"+f.Name) {
+				w.genSlice(fv)
+				w.Probe("gen-list-valued-element")
 			}
 		}
 	}
